@@ -79,6 +79,37 @@ def run_aux(c, binary, sub, arg, name, env=None):
         c.report(scn, r2)
 
 
+def apalache_induction(c, layouts, par=4):
+    """Unbounded depth: for each element layout (S, A) the layout invariant is inductive over the digit
+    recursion (spec/apalache/LayoutInd.tla), base case and step, discharged by Apalache."""
+    from concurrent.futures import ThreadPoolExecutor
+    src = open(os.path.join(vlib.SPEC, "apalache", "LayoutInd.tla")).read()
+    root = os.path.join(c.dir, "apalache")
+    os.makedirs(root, exist_ok=True)
+
+    def one(sa):
+        s, a = sa
+        d = os.path.join(root, "s%d_a%d" % (s, a))
+        os.makedirs(d, exist_ok=True)
+        txt = src.replace("S == 24", "S == %d" % s).replace("A == 8", "A == %d" % a)
+        open(os.path.join(d, "LayoutInd.tla"), "w").write(txt)
+        ok = True
+        for args in (["--init=Init", "--inv=IndInv", "--length=0"], ["--init=IndInit", "--inv=StepInv", "--length=1"]):
+            p = vlib.sh(["apalache-mc", "check", "--out-dir=" + os.path.join(d, "out")] + args + ["LayoutInd.tla"], cwd=d, timeout=600)
+            if "The outcome is: NoError" not in p.stdout:
+                ok = False
+        shutil.rmtree(d, ignore_errors=True)
+        return sa, ok
+
+    with ThreadPoolExecutor(max_workers=par) as ex:
+        res = list(ex.map(one, layouts))
+    bad = [sa for sa, ok in res if not ok]
+    c.cov["apalache_inductive_layouts"] = len(res) - len(bad)
+    c.cov["mc_runs"].append({"module": "apalache/LayoutInd", "layouts": len(res), "proved_inductive": len(res) - len(bad)})
+    if bad:
+        raise ToolError("Apalache did not establish the inductive layout step for element layouts %s (model error: the TLC model and the real compiler agree up to depth 11)" % bad[:5])
+
+
 @check("C01")
 def c01(tier, seed):
     c = Check("C01", tier, seed)
@@ -89,6 +120,10 @@ def c01(tier, seed):
     c.mc("MC_Layout", "MC_Layout_q" if tier == "quick" else "MC_Layout_t", workers=8, timeout=1500)
     binary = build_aux()
     run_aux(c, binary, "layout", tier, "layout")
+    if tier != "quick" and info["even"] == ["U", "U", "PhantomData"] and info["odd"] == ["U", "U", "T"] and info["even_repr_c"] and info["odd_repr_c"]:
+        lattice = [(s, a) for a in (1, 2, 4, 8, 16, 32, 64) for s in (0, 1, 2, 3, 4, 5, 6, 8, 12, 16, 24, 32, 48, 64, 96, 128) if s % a == 0]
+        apalache_induction(c, lattice)
+        c.assumptions.append("unbounded N: the layout invariant is inductive over the digit recursion for each of the %d element layouts (Apalache, base case + step)" % len(lattice))
     c.cov["exhaustive"] = True
     c.cov["bounds"] = {"model": "every N < 2^%d x 64 element layouts (sizes 0..128, alignments 1..64)" % (7 if tier == "quick" else 11),
                        "compiler records": "30 element types x (N in 0..=64 + boundaries%s) + every larger named typenum length up to 2^62 (N*size < 2^59; all for zero-sized types)" % ("" if tier == "quick" else ", all of 0..=1024")}
